@@ -139,6 +139,11 @@ def _mk(c, tchans=None):
         df = -df        # channel width handed over with a filterbank header's sign: the frame's df is its magnitude
     fr = stg.Frame(fchans=FCHANS, tchans=tchans or c['tchans'], df=df, dt=dt, fch1=fch1,
                    ascending=asc, t_start=0.0)
+    if c.get('tsgap'):
+        # (sub-box) a time axis with a gap after the first row and a non-zero first time: what Cadence.consolidate() hands out
+        ts = np.array(fr.ts, dtype=float) + c['tsgap'][0]
+        ts[1:] += c['tsgap'][1]
+        fr.ts = ts
     if c.get('route') == 'fil':
         # (sub-box) the same frame after a trip through a filterbank file: what the helper does on a LOADED frame
         import os, contextlib, io
@@ -484,6 +489,7 @@ def run(ctx):
         cases += [dict(c, style=st) for c in base]
     cases += [dict(c, negdf=True, asc=a) for c in base for a in (True, False)]
     cases += [dict(c, route='fil', asc=a) for c in base for a in (True, False) if c['prof'] == 'box']
+    cases += [dict(c, tsgap=g, asc=a) for c in base for a in (True, False) for g in ([0.0, 3.5], [7.0, 0.0], [2.5, 4.0]) if not c['smear']]
     # (sub-box) width and drift rate as 16-bit integers in a geometry where twice the width does not fit the type
     for asc in (True, False):
         for prof in ('box', 'gaussian'):
